@@ -112,16 +112,17 @@ TRIAGE = {
     "c4bf74b8d9": "**blind spot, closed** (as 438f10fd8e; spans 255 / 256 / 257 and the full line length are now requested too)",
     "bcd4b2720d": "outside what C09 demands: with the `~` option ignored every name is its old self minus the (empty) stripped prefix; the checks exercise explicit prefixes only (the common-prefix computation is `find_common_prefix`, file-path heuristics the property does not describe)",
     "b31d3d7d32": "**blind spot, closed** (as c4bf74b8d9, found again in another lane before the long-line cases existed)",
-    "00fb3139ad": "not covered: needs a Hermes map with 256 or more sources going through `rewrite`; the generated Hermes maps have at most 5 sources (the model's association lists make hundreds of sources per case slow); recorded as a limit",
+    "00fb3139ad": "**blind spot, closed**: Hermes `rewrite` remaps function maps through a `u8` index: C09's corpus now rewrites a Hermes map with 300 sources of which ids 299, 256, 255 and 0 are referenced; reported by C09 now",
     "2b88db9f66": "equivalent: a capacity hint",
     "dc1dd5872c": "**blind spot, closed** (`get_source` index through `u8`: the many-sources cases of C13 report it now; evaluated before they existed)",
     "24fc0499b9": "**blind spot, closed**: `dst_line` through `u16`: no mapping string had 65 536 lines; C02's corpus now decodes `;`×255 and `;`×65 535 followed by tokens on the next lines; reported by C02 now",
     "05089504a8": "outside the properties: the numeric payload of the error value",
-    "6451a0f17f": "not covered (as 00fb3139ad: a Hermes map with 256 or more sources going through `rewrite`)",
+    "6451a0f17f": "**blind spot, closed** (as 00fb3139ad, the other table of `SourceMapHermes::rewrite`)",
     "53f2a8bc2e": "equivalent: the value already is a `u8`",
     "7e37791036": "equivalent: a truncated cached line number only makes the cache miss (the line is fetched again and scanned from its start)",
     "f9031bf4b4": "equivalent: a base64 digit is below 64",
     "788edb9158": "**blind spot, closed**: builder `set_source_contents` id through `u8`: `bld.seq` now also builds maps with 257 / 258 / 300 sources and sets contents at ids 255 / 256 / 257",
+    "79c776a8e8": "not covered: the builder's `get_source_contents` is read by `flatten` / `rewrite` only (`has_source_contents`); it would take an index section or a rewrite with 257 or more distinct sources that have contents; recorded as a limit",
     "6812f09c9a": "`split_path` is used by `find_common_prefix` (the `~` option of `rewrite`) only, not by `make_relative_path`: outside C19; C09 holds for explicit prefixes and for whatever `~` computes (the stripped prefix is part of its statement)",
 }
 
